@@ -24,6 +24,7 @@ def run(e, R, tier):
         S.r_exit_handshake,
         S.r_no_strong_ref,
         S.r_atexit,
+        L.r_wake,
         L.r_wake_lock,
         L.r_wake_clear,
         L.r_nulled,
